@@ -364,7 +364,12 @@ class GroupedType(BaseDataType):
         except KeyError:
             raise DiameterAvpError(f"`{avp_key}` key not defined")
 
-        self._avps.remove(item)
+        #: The DiameterAVP object bound to the name is removed (not another 
+        #: one with the same content).
+        for index, avp in enumerate(self._avps):
+            if avp is item:
+                del self._avps[index]
+                break
         self.__dict__.pop(avp_key, None)
 
         self._data = b""
